@@ -35,6 +35,10 @@ def check(run, model, tier):
                  ('ALIAS.thread-args', 'thread-shared attributes are not rebound outside __init__')):
         run.rule(r, t)
     w = fabric.wiring(model)
+    if not w.consistent:
+        run.inst('KIND.wiring', w.subscribe, 'each kind is registered in the registry its own delivery thread reads', False,
+                 'subscribe(queue_type=k) writes %s but the threads read %s' % (w.registry, sorted(w.threads)), obligation=True)
+        return
     fab = w.fab
     ih = w.initiate
     g = cfg_of(ih)
